@@ -296,3 +296,7 @@ mod test {
         assert_eq!(res.len(), 0);
     }
 }
+
+#[cfg(feature = "verif")]
+#[path = "verif/subscribers_hooks.rs"]
+pub(crate) mod verif_hooks;
